@@ -338,7 +338,7 @@ def flatten(tree):
 def c10_pairing(ctx, p):
     L = p['len']
     # x, z: one letter; y: one or two letters (so one name can be a suffix / prefix of another, not only equal or distinct)
-    names = {k: ctx.bytes(k, p.get('ylen', 1) if k == 'y' else 1, only=tuple(range(97, 123))) for k in ('x', 'y', 'z')}
+    names = {k: ctx.bytes(k, p.get('ylen', 1) if k == 'y' else 1, only=tuple(range(97, 123)) + (tuple(range(65, 91)) if p.get('alpha') == 'mixed' else ())) for k in ('x', 'y', 'z')}
     src = []
     toks = []
     for k in p.get('prefix', []):   # concrete inert tags in front: 'o' = opener of a name that is never closed, 'c' = stray closer,
